@@ -16,6 +16,11 @@ the search compares the four exponential-integral classes and the helpers themse
 (2) read / change / read histories on one living object: derived quantities (integral_scale, integral_scale_vec, percentile_scale,
 len_rescaled, function values) against a freshly built model and an independent quadrature of the current correlation, all shipped
 classes + user classes with optional arguments; model side: GSV.Model.CovFn.mrun.
+(3) scale functions under a non-default `rescale`: correspondence of percentile_scale with GSV.Model.CovFn.percentileScale (closed-form
+percentile lag of the kernel x len_scale / rescale; theorems in Props/C03Pct for every rescale) on fresh models and after in-place histories
+ending in `rescale = target`; search over all 17 classes x rescale {default, 0.3, 1.5, 2, 3} x {fresh, rescale changed in place}:
+percentile_scale against an independent bracketing oracle (variogram value AND smallest positive lag), integral_scale against an independent
+quadrature, integral_scale <-> len_scale round trip.  K3 keeps its keys only where the documented root search itself fails.
 """
 import math
 import warnings
@@ -30,6 +35,9 @@ ASSUMPTIONS = [
     "np.isclose(r, 0) is modelled as |r| <= 1e-8 (numpy defaults atol=1e-8, rtol irrelevant against 0)",
     "scipy.integrate.quad / scipy.optimize.root (integral_scale of classes without closed form, percentile_scale) "
     "are parameters: their results are checked by substitution, not modelled",
+    "percentile_scale: the documented procedure (scipy.optimize.root on 1 - correlation - per from the start value per * len_rescaled) is carried out by the "
+    "harness only to CLASSIFY a failure of the code: where that procedure itself does not reach the smallest positive root (peaked / oscillating models) the "
+    "failure is the known finding K3, elsewhere it is a violation with its own key; the oracle deciding failure is the independent bracketing search",
     "the lag of the *_spatial variants comes from the Geo model (property C12)",
     "tools.special: scipy's exp1 / expn / gamma * gammaincc / gamma * gammainc are parameters of the model (Prims); the harness "
     "evaluates these leaves and the plan arithmetic of GSV.Model.CovFn.evalG / evalL, the model decides every branch; that the leaves "
@@ -716,6 +724,86 @@ def corr_histories(ctx, rng):
     return evals, len(meta), dis, dist, samples
 
 
+PCT_KERNELS = ["Exponential", "Gaussian", "Stable", "Rational", "Linear", "TPLSimple", "Matern12", "MaternLimit"]
+
+
+def corr_percentile(ctx, rng):
+    """percentile_scale of the real model against GSV.Model.CovFn.percentileScale = len_rescaled * (smallest non-negative h with
+    cor h = 1 - per) (closed forms, proved in Props/C03Pct to be the smallest lag for EVERY rescale) — classes / parameter slices on which
+    the root search of the code converges (Stable alpha >= 0.8, TPLSimple nu <= 2; elsewhere: known finding K3, explored by the search),
+    rescale in {default, 0.3, 1.5, 2, 3}, on a fresh model and after a read / change / read history (rescale, len_scale, shape, var,
+    nugget, integral_scale changed in place; model: mrun)"""
+    ops, meta = [], []
+    dist = {}
+    for name in PCT_KERNELS:
+        cls = "Matern" if name.startswith("Matern") else name
+        shape_arg = {"Stable": "alpha", "Rational": "alpha", "TPLSimple": "nu", "MaternLimit": "nu"}.get(name)
+        for rep in range(ctx.scale(1, 6)):
+            for resc in RESCALE_SET:
+                for mode in ("fresh", "history"):
+                    dim = 1 if name == "Linear" else int(rng.randint(1, 3 if name == "TPLSimple" else 4))
+
+                    def draw_shape():
+                        return {"Stable": lambda: float(rng.uniform(0.8, 2.0)), "Rational": lambda: logu(rng, 0.5, 50.0),
+                                "TPLSimple": lambda: float(rng.uniform(1.5, 2.0)), "MaternLimit": lambda: float(rng.uniform(20.001, 30.0))}[name]()
+                    opt = {shape_arg: draw_shape()} if shape_arg else ({"nu": 0.5} if name == "Matern12" else {})
+                    first = resc if mode == "fresh" else RESCALE_SET[int(rng.randint(len(RESCALE_SET)))]
+                    common = dict(var=logu(rng, 0.1, 10.0), len_scale=float(rng.choice([1.0, 12.5, 0.3, logu(rng, 0.05, 50.0)])),
+                                  nugget=float(rng.choice([0.0, 0.5])), rescale=first)
+                    m = make(cls, dim, common, opt)
+                    start = {"op": "covfn_percentile", "kernel": name, "dim": dim, "a": proto.f2b(float(getattr(m, shape_arg)) if shape_arg else 1.0),
+                             **par_bits(m)}
+                    jops, trace = [], []
+                    with warnings.catch_warnings():
+                        warnings.simplefilter("ignore")
+                        if mode == "history":
+                            m.percentile_scale(0.5)         # read before the changes
+                            kinds = ["len_scale", "var", "nugget", "rescale"] + (["shape"] if shape_arg else []) + (
+                                ["integral_scale"] if name in ("Exponential", "Gaussian", "Matern12") else [])     # closed-form calc_integral_scale (quad-based: 1e-4 only)
+                            for k in list(rng.choice(kinds, size=int(rng.randint(0, 3)))) + ["rescale"]:
+                                k = str(k)
+                                if k == "shape":
+                                    v = draw_shape()
+                                    setattr(m, shape_arg, v)
+                                elif k == "rescale":
+                                    v = float(m.default_rescale()) if resc is None else resc
+                                    if len(jops) < 2 and rng.rand() < 0.3:
+                                        v = logu(rng, 0.2, 5.0)     # an intermediate value; the last op sets the target
+                                    m.rescale = v
+                                else:
+                                    v = {"len_scale": lambda: logu(rng, 0.05, 50.0), "var": lambda: logu(rng, 0.1, 10.0),
+                                         "nugget": lambda: float(rng.uniform(0, 3)), "integral_scale": lambda: logu(rng, 0.05, 20.0)}[k]()
+                                    setattr(m, k, v)
+                                jops.append({"k": k, "v": proto.f2b(v)})
+                                trace.append(k)
+                            # the last op is always `rescale = target`
+                            v = float(m.default_rescale()) if resc is None else resc
+                            m.rescale = v
+                            jops.append({"k": "rescale", "v": proto.f2b(v)})
+                        pers = [0.1, 0.5, 0.9, float(rng.uniform(0.02, 0.98))]
+                        impl = [float(m.len_rescaled)] + [float(m.percentile_scale(q)) for q in pers]
+                    ops.append({**start, "per": proto.fbits(pers), "ops": jops})
+                    rk = "default" if resc is None else ("<1" if resc < 1 else ">1")
+                    dist[f"percentile:{mode}:rescale {rk}"] = dist.get(f"percentile:{mode}:rescale {rk}", 0) + 1
+                    meta.append(({"cls": name, "dim": dim, "kw": {**common, **opt}, "mode": mode, "history": trace, "rescale": float(m.rescale),
+                                  "per": pers}, impl))
+    res = proto.run_driver(ops)
+    evals, dis, samples = 0, [], []
+    for (case, impl), r in zip(meta, res):
+        if isinstance(r, dict) and "error" in r:
+            dis.append({"what": f"percentile/{case['cls']}: model raised {r['error']}", "case": case})
+            continue
+        model = proto.unbits(r).astype(float)
+        impl = np.asarray(impl, dtype=float)
+        evals += impl.size
+        bad = differs(model[:1], impl[:1], 0.0, 1e-14, 0).any() or differs(model[1:], impl[1:], 0.0, 1e-8, 0).any()
+        if model.shape != impl.shape or bad:
+            dis.append({"what": "percentile/len_rescaled,percentile_scale(per...)", "case": case, "impl": impl.tolist(), "model": model.tolist()})
+        elif len(samples) < 2:
+            samples.append({"label": "percentile", "case": case, "impl_first": impl.tolist()[:4], "model_first": model.tolist()[:4]})
+    return evals, len(meta), dis, dist, samples
+
+
 def correspondence(ctx):
     rng = np.random.RandomState(ctx.seed + 303)
     col = Collector()
@@ -750,12 +838,14 @@ def correspondence(ctx):
     col.finish()
     e_s, d_s, dis_s, dist_s, samp_s = corr_special(ctx, np.random.RandomState(ctx.seed + 313))
     e_h, d_h, dis_h, dist_h, samp_h = corr_histories(ctx, np.random.RandomState(ctx.seed + 323))
-    col.evals += e_s + e_h
-    col.disagreements += dis_s + dis_h
+    e_p, d_p, dis_p, dist_p, samp_p = corr_percentile(ctx, np.random.RandomState(ctx.seed + 333))
+    col.evals += e_s + e_h + e_p
+    col.disagreements += dis_s + dis_h + dis_p
     col.dist.update(dist_s)
     col.dist.update(dist_h)
-    col.samples += samp_s[:1] + samp_h[:1]
-    return {"evaluations": col.evals, "distinct_nontrivial": len(col.distinct) + d_s + d_h,
+    col.dist.update(dist_p)
+    col.samples += samp_s[:1] + samp_h[:1] + samp_p[:1]
+    return {"evaluations": col.evals, "distinct_nontrivial": len(col.distinct) + d_s + d_h + d_p,
             "rule": "one case = (class or user subclass via route, parameter set within bounds on an elementary slice, function / "
                     "variant); every case is evaluated on a lag grid {0, isclose band and its edges, 1e-6 ℓ, inside, support edge "
                     "±1 ulp, beyond, 20 ℓ, 100 ℓ, negative, random}; evaluations = compared doubles; distinct = distinct "
@@ -765,7 +855,9 @@ def correspondence(ctx):
                     "-0.5, half-integers, arguments through x<0, 0, the 1e-20 limit, 30 / -s/2 asymptote switch (scipy leaves evaluated by the "
                     "harness, dispatch and elementary branches by the model, 1e-13); tplstable_cor, TPL*.correlation, Integral.cor expanded by "
                     "the model into const + sum coef*exp_int(s,x) (1e-12 + rounding admitted by the recurrence); read/change/read histories: "
-                    "len_scale and integral_scale_vec after every in-place change (1e-12 closed-form classes, 1e-4 quad-based)",
+                    "len_scale and integral_scale_vec after every in-place change (1e-12 closed-form classes, 1e-4 quad-based); percentile_scale(per) = "
+                    "len_rescaled x closed-form percentile lag of the kernel (Exponential, Gaussian, Stable alpha >= 0.8, Rational, Linear, TPLSimple nu <= 2, "
+                    "Matern 1/2 and > 20) for rescale in {default, 0.3, 1.5, 2, 3}, fresh and after in-place histories ending in `rescale = target` (1e-8)",
             "samples": col.samples, "disagreements": col.disagreements[:20], "distribution": col.dist}
 
 
@@ -1532,8 +1624,117 @@ def search_integral_scale(ctx, rng, n_per_class, viol):
     return ev
 
 
+# ------------------------------------------------------------------ percentile scale: independent oracle
+# geometric lag grid (ratio 1.02) from 1e-9 to ~60 in units of the (upper) rescaled length
+PCT_GRID = np.concatenate([[0.0], 1e-9 * 1.02 ** np.arange(0, 1260)])
+
+
+def pct_curve(m, x, per):
+    """the curve whose root the percentile scale is: 1 - correlation(x) - per (public API only)"""
+    with warnings.catch_warnings(), np.errstate(all="ignore"):
+        warnings.simplefilter("ignore")
+        return 1.0 - np.asarray(m.correlation(np.atleast_1d(np.asarray(x, dtype=float))), dtype=float) - per
+
+
+def percentile_grid(m):
+    """the correlation on the bracketing grid (depends on the model only; shared by several percentiles)"""
+    L = float(m.len_rescaled)
+    if hasattr(m, "len_low"):
+        L = float((m.len_low + m.len_scale) / m.rescale)
+    g = L * PCT_GRID
+    return L, g, pct_curve(m, g, 0.0)
+
+
+def smallest_percentile_lag(m, per, grid=None):
+    """the SMALLEST positive lag at which the correlation has dropped to 1 - per, found without gstools' root finder: the
+    first sign change of the curve on a geometric grid starting at 0 (where it is -per < 0), refined by bisection (brentq).
+    Lags below 1e-3 (upper) len_rescaled at which a model that is smooth at the origin (correlation(1e-3 L) > 0.99) reports NaN or
+    a smaller correlation than at 1e-3 L are the small-lag breakdown of the known findings N1 / N2 and are skipped.
+    None: no sign change up to 60 L or a NaN inside the bracket."""
+    from scipy.optimize import brentq
+    L, g, v0 = grid if grid is not None else percentile_grid(m)
+    v = v0 - per
+    k = int(np.searchsorted(PCT_GRID, 1e-3))
+    if np.isfinite(v[k]) and v[k] + per < 0.01:
+        small = np.arange(g.size) < k
+        v = np.where(small & (np.isnan(v) | (v > v[k] + 1e-6)), -per, v)
+    prev = 0
+    for i in range(1, g.size):
+        if np.isnan(v[i]):
+            prev = None
+            continue
+        if v[i] < 0:
+            prev = i
+            continue
+        if prev is None:
+            return None
+        return float(brentq(lambda x: float(pct_curve(m, x, per)[0]), g[prev], g[i], xtol=1e-16 * L, rtol=1e-14))
+    return None
+
+
+def percentile_outcome(m, x, x0, per):
+    """'ok': x is positive, the variogram there is nugget + per * var (1e-6 var) and x is the smallest such lag x0 (1e-6 relative,
+    or the curve stays within 1e-5 of its root value between the two); 'unconverged-root' / 'negative-root' / 'not-smallest-root'"""
+    with warnings.catch_warnings(), np.errstate(all="ignore"):
+        warnings.simplefilter("ignore")
+        g = float(np.asarray(m.variogram(np.array([x])), dtype=float)[0])
+    if not abs(g - m.nugget - per * m.var) <= 1e-6 * m.var + 64 * EPS * (m.var + m.nugget):
+        return "unconverged-root", g
+    if x < 0:
+        return "negative-root", g
+    if x0 is None or abs(x - x0) <= 1e-6 * x0:
+        return "ok", g
+    mid = np.linspace(min(x, x0), max(x, x0), 33)
+    if np.nanmax(np.abs(pct_curve(m, mid, per))) <= 1e-5:
+        return "ok", g
+    return "not-smallest-root", g
+
+
+def documented_percentile_search(m, per):
+    """the procedure `percentile_scale` documents, carried out here: scipy.optimize.root on 1 - correlation(x) - per from the
+    initial guess per * len_rescaled (len_rescaled = len_scale / rescale computed from the raw attributes)"""
+    from scipy.optimize import root
+    with warnings.catch_warnings(), np.errstate(all="ignore"):
+        warnings.simplefilter("ignore")
+        return float(root(lambda z: 1.0 - m.correlation(z) - per, per * (m.len_scale / m.rescale))["x"][0])
+
+
+def check_percentile(m, name, per, case, viol, grid=None):
+    """percentile_scale(per) against the independent oracle.  A failure that the documented search (root finder started at
+    per * len_rescaled) shows as well is the known weakness K3 of that search (peaked / oscillating models: unconverged or mirrored
+    root, keys unchanged); a failure on an input where the documented search DOES find the smallest positive root has its own key"""
+    with warnings.catch_warnings(), np.errstate(all="ignore"):
+        warnings.simplefilter("ignore")
+        try:
+            x = float(m.percentile_scale(per))
+        except Exception as e:   # noqa
+            viol.append({"key": f"percentile-scale:raised:{name}", "what": f"percentile_scale raised {type(e).__name__}: {e}",
+                         "case": {**case, "per": per}})
+            return 1
+    x0 = smallest_percentile_lag(m, per, grid)
+    out, g = percentile_outcome(m, x, x0, per)
+    if out == "ok":
+        return 1
+    c = {**case, "per": per, "scale": x, "variogram": g, "want": m.nugget + per * m.var, "smallest_lag_reaching_per": x0,
+         "len_rescaled": float(m.len_scale / m.rescale)}
+    xr = documented_percentile_search(m, per)
+    outr, _ = percentile_outcome(m, xr, x0, per)
+    what = {"unconverged-root": "variogram(percentile_scale(per)) != nugget + per * var (scipy root did not converge; its `success` flag is ignored)",
+            "negative-root": "percentile_scale(per) is a negative lag (mirror root of the even function)",
+            "not-smallest-root": "percentile_scale(per) is a lag where the variogram reaches per * var, but not the smallest one"}[out]
+    if outr == "ok":
+        viol.append({"key": f"percentile-scale:wrong-where-documented-search-converges:{name}",
+                     "what": what + f"; the documented search (root finder started at per * len_rescaled = {float(per * m.len_scale / m.rescale)!r}) converges to "
+                                    f"{xr!r}, the smallest positive lag with variogram = nugget + per * var", "case": {**c, "documented_search": xr}})
+    elif out == "not-smallest-root":
+        viol.append({"key": f"percentile-scale:not-smallest-root:{name}", "what": what, "case": {**c, "documented_search": xr}})
+    else:
+        viol.append({"key": f"percentile-scale:{out}", "what": what, "case": c})
+    return 1
+
+
 def search_percentile(ctx, rng, n_per_class, viol):
-    """(d) percentile_scale substituted back into the variogram"""
+    """(d) percentile_scale substituted back into the variogram and compared with the smallest positive lag reaching the percentile"""
     ev = 0
     for name in ALL_CLASSES:
         for t in range(n_per_class):
@@ -1541,26 +1742,9 @@ def search_percentile(ctx, rng, n_per_class, viol):
             common = gen_common(rng)
             opt, _ = gen_opt(rng, name, dim, elementary=False)
             m = make(name, dim, common, opt)
+            grid = percentile_grid(m)
             for per in (0.1, 0.5, 0.9, float(rng.uniform(0.02, 0.98))):
-                with warnings.catch_warnings(), np.errstate(all="ignore"):
-                    warnings.simplefilter("ignore")
-                    try:
-                        x = float(m.percentile_scale(per))
-                        g = float(m.variogram(np.array([x]))[0])
-                    except Exception as e:   # noqa
-                        viol.append({"key": f"percentile-scale:raised:{name}", "what": f"percentile_scale raised {type(e).__name__}",
-                                     "case": {"cls": name, "dim": dim, "kw": {**common, **opt}, "per": per}})
-                        continue
-                ev += 1
-                case = {"cls": name, "dim": dim, "kw": {**common, **opt}, "per": per, "scale": x, "variogram": g,
-                        "want": m.nugget + per * m.var}
-                if not abs(g - m.nugget - per * m.var) <= 1e-6 * m.var + 64 * EPS * (m.var + m.nugget):
-                    viol.append({"key": "percentile-scale:unconverged-root", "case": case,
-                                 "what": "variogram(percentile_scale(per)) != nugget + per * var (scipy root did not converge; "
-                                         "its `success` flag is ignored)"})
-                elif x < 0:
-                    viol.append({"key": "percentile-scale:negative-root", "case": case,
-                                 "what": "percentile_scale(per) is a negative lag (mirror root of the even function)"})
+                ev += check_percentile(m, name, per, {"cls": name, "dim": dim, "kw": {**common, **opt}}, viol, grid)
             for bad_per in (0.0, 1.0, -0.1, 1.5):
                 ev += 1
                 try:
@@ -1570,6 +1754,94 @@ def search_percentile(ctx, rng, n_per_class, viol):
                 except ValueError:
                     pass
     return ev
+
+
+RESCALE_SET = [None, 0.3, 1.5, 2.0, 3.0]       # None = the class default
+
+
+def search_scale_functions(ctx, rng, reps, viol):
+    """(d') the scale functions under a non-default `rescale`, for every shipped class (the compactly supported ones included), rescale in
+    {default, 0.3, 1.5, 2, 3}, on a freshly built model and on a model whose `rescale` was changed in place after it had been read:
+      * percentile_scale(per), per in {0.1, 0.5, 0.9, random}: variogram(percentile_scale) = nugget + per * var and it is the smallest
+        positive such lag (check_percentile: independent bracketing oracle; K3 only where the documented search itself fails);
+      * integral_scale = independent quadrature of the current correlation (split at the range);
+      * integral_scale <-> len_scale round trip: prescribing f * integral_scale multiplies len_scale by f, the reported integral scale is
+        the prescribed one, and a fresh model with that len_scale reports it too."""
+    ev = 0
+    dist = {}
+    exact = ("Gaussian", "Exponential", "Stable", "Rational", "Matern", "Integral")
+    slow = TPL3 + ("JBessel", "Integral")
+    for ic, name in enumerate(ALL_CLASSES):
+        for rep in range(reps):
+            for ir, resc in enumerate(RESCALE_SET):
+                for mode in ("fresh", "in-place"):
+                    dim = gen_dim(rng, name)
+                    opt, _ = gen_opt(rng, name, dim, elementary=False)
+                    common = dict(var=logu(rng, 0.1, 10.0), nugget=float(rng.choice([0.0, 0.5, rng.uniform(0, 3)])),
+                                  len_scale=float(rng.choice([1.0, 12.5, 0.3, logu(rng, 0.05, 50.0)])), rescale=resc)
+                    case = {"cls": name, "dim": dim, "kw": {**common, **opt}, "mode": mode}
+                    if mode == "fresh":
+                        m = make(name, dim, common, opt)
+                    else:
+                        first = RESCALE_SET[(ir + 1 + int(rng.randint(len(RESCALE_SET) - 1))) % len(RESCALE_SET)]
+                        m = make(name, dim, {**common, "rescale": first}, opt)
+                        with warnings.catch_warnings(), np.errstate(all="ignore"):
+                            warnings.simplefilter("ignore")
+                            # read before the change (whatever the object memoises); the quad-based integral scale of the
+                            # exponential-integral classes costs 30 ms per read: there only the cheap accessors
+                            try:
+                                m.percentile_scale(0.5), m.correlation(np.array([0.5 * m.len_rescaled])), m.len_rescaled
+                                if name not in slow:
+                                    m.integral_scale
+                            except Exception:   # noqa
+                                pass
+                            m.rescale = float(m.default_rescale()) if resc is None else resc
+                        case["rescale_before"] = first
+                    case["kw"]["rescale"] = float(m.rescale)
+                    rk = "default" if resc is None else ("<1" if resc < 1 else ">1")
+                    dist[f"{mode}:rescale {rk}"] = dist.get(f"{mode}:rescale {rk}", 0) + 1
+                    grid = percentile_grid(m)
+                    for per in (0.1, 0.5, 0.9, float(rng.uniform(0.02, 0.98))):
+                        ev += check_percentile(m, name, per, case, viol, grid)
+                    # integral scale against the independent quadrature (D11 / D12 / divergent integral: see search_histories)
+                    skip = name == "JBessel" or (name == "Matern" and m.nu > 20.0) or (name == "Rational" and m.alpha <= 0.55)
+                    if skip or (name in slow and (ir + ic + rep + ctx.seed) % 3 != 0 and ctx.quick):
+                        continue
+                    with warnings.catch_warnings(), np.errstate(all="ignore"):
+                        warnings.simplefilter("ignore")
+                        rep_is = float(m.integral_scale)
+                        truth, qerr = quad_of_correlation(m, name)
+                    ev += 1
+                    rtol = 1e-7 if name in exact else 1e-4
+                    if np.isfinite(truth) and qerr <= 1e-6 * abs(truth) and not abs(rep_is - truth) <= rtol * abs(truth):
+                        viol.append({"key": f"integral-scale:{name}", "what": "integral_scale is not the integral of the correlation over all lags "
+                                     "(independent quadrature of model.correlation, non-default rescale)",
+                                     "case": {**case, "reported": rep_is, "integral_of_correlation": truth}})
+                        continue
+                    if name in TPL3 and m.len_low > 0:
+                        continue        # documented refusal: len_low is kept fixed
+                    fac = float(rng.choice([0.5, 2.0, logu(rng, 0.1, 10.0)]))
+                    len0 = float(m.len_scale)
+                    with warnings.catch_warnings(), np.errstate(all="ignore"):
+                        warnings.simplefilter("ignore")
+                        try:
+                            m.integral_scale = fac * rep_is
+                        except ValueError as e:
+                            viol.append({"key": f"integral-scale-setter:{name}", "what": f"integral_scale could not be prescribed: {e}",
+                                         "case": {**case, "prescribed": fac * rep_is}})
+                            continue
+                        after = float(m.integral_scale)
+                        m3 = fresh_like(name, m)
+                        again = float(m3.integral_scale)
+                    ev += 3
+                    srt = 1e-9 if name in exact else 1e-4
+                    if not (abs(after - fac * rep_is) <= srt * fac * rep_is and abs(m.len_scale - fac * len0) <= max(srt, 1e-9) * fac * len0
+                            and abs(again - fac * rep_is) <= srt * fac * rep_is):
+                        viol.append({"key": f"integral-scale-setter:{name}", "what": "len_scale <-> integral_scale do not round-trip: after model.integral_scale = f * I "
+                                     "the reported integral scale / len_scale are not f * I / f * len_scale, or a fresh model with that len_scale reports another one",
+                                     "case": {**case, "f": fac, "integral_scale_before": rep_is, "len_scale_before": len0, "reported_after": after,
+                                              "len_scale_after": float(m.len_scale), "fresh_model_reports": again}})
+    return ev, dist
 
 
 # ------------------------------------------------------------ derived quantities after in-place parameter changes
@@ -2000,6 +2272,8 @@ def search(ctx, deep=False):
     ev += e2
     ev += search_integral_scale(ctx, rng, ctx.scale(2, 12) * mult, viol)
     ev += search_percentile(ctx, rng, ctx.scale(2, 20) * mult, viol)
+    e5, dist_sf = search_scale_functions(ctx, np.random.RandomState(ctx.seed + 3403), ctx.scale(1, 6) * mult, viol)
+    ev += e5
     e3, worst_so, dist_so = search_special_orders(ctx, np.random.RandomState(ctx.seed + 3103), viol)
     ev += e3
     e4, dist_h = search_histories(ctx, np.random.RandomState(ctx.seed + 3203), ctx.scale(2, 18) * mult, viol)
@@ -2009,7 +2283,9 @@ def search(ctx, deep=False):
     return {"evaluations": ev, "violations": out,
             "summary": "identities, nugget/axis/yadrenko/spatial variants and user routes on the real API for all 17 classes over their "
                        "bounds; closed forms vs mpmath (30 digits); integral_scale vs exact integral (closed form / mpmath quad) and "
-                       "setter; percentile_scale substituted back.  violation counts per key: " + str(seen)
+                       "setter; percentile_scale substituted back and compared with the smallest positive lag reaching the percentile (independent "
+                       "bracketing); scale functions (percentile / integral scale / len_scale <-> integral_scale round trip) under rescale in "
+                       f"{RESCALE_SET} (None = default), fresh and after rescale was changed in place: " + str(dist_sf) + ".  violation counts per key: " + str(seen)
                        + "; integral_scale= refused with ValueError for TPL models with len_low > 0: " + str(REFUSED)
                        + "; worst closed-form error (units of tolerance): "
                        + str({k: round(v, 3) for k, v in worst.items()})
@@ -2058,6 +2334,24 @@ def replay(ctx, payload):
             truth = float(exact_integral_scale(c["cls"], m, mp_reference(c["cls"], m)))
             print(f"replay {key}: reported={rep!r} integral_of_correlation={truth!r}")
             bad += abs(rep - truth) > 1e-6 * abs(truth)
+        elif key.startswith("percentile-scale:") and "per" in c:
+            if c.get("mode") == "in-place":      # the model was built with another rescale, read, then `rescale` set in place
+                target = kw.pop("rescale", None)
+                first = c.get("rescale_before")
+                m = make(c["cls"], c.get("dim", 1), {}, {**kw, **({} if first is None else {"rescale": first})})
+                with warnings.catch_warnings(), np.errstate(all="ignore"):
+                    warnings.simplefilter("ignore")
+                    m.percentile_scale(0.5)
+                    if target is not None:
+                        m.rescale = target
+            with warnings.catch_warnings(), np.errstate(all="ignore"):
+                warnings.simplefilter("ignore")
+                x = float(m.percentile_scale(c["per"]))
+            x0 = smallest_percentile_lag(m, c["per"])
+            out, g = percentile_outcome(m, x, x0, c["per"])
+            print(f"replay {key}: percentile_scale({c['per']!r}) = {x!r}: {out}; variogram there {g!r}, nugget + per * var = {m.nugget + c['per'] * m.var!r}; "
+                  f"smallest positive lag reaching the percentile (independent bracketing) {x0!r}; len_rescaled = {float(m.len_scale / m.rescale)!r}")
+            bad += out != "ok"
         elif key.startswith("identity:cor-vs-correlation") and "lag" in c:
             r = np.array([c["lag"]])
             a, b = float(m.correlation(r)[0]), float(m.cor(np.abs(r) / m.len_rescaled)[0])
